@@ -257,7 +257,7 @@ def run(ctx: lib.Ctx) -> None:
                 if p + 1 <= head and width <= 12:
                     add(History(5, [(p, 6), (p + 1, 7)]), head, last, step, 5, 'boundary:adjacent')
     # 2. random histories satisfying the hypothesis
-    for _ in range(ctx.n(220, 500)):
+    for _ in range(ctx.n(220, 350)):
         width = ctx.rng.choice([0, 1, 2, 3, 5, 10, 59, 60, 61, 119, 120, 121, 240, 399, 400]) if ctx.rng.random() < 0.5 else ctx.rng.randint(0, 400)
         last = ctx.rng.choice([0, 1, 7, 1000, 4_000_000])
         head = last + width
